@@ -1,4 +1,5 @@
 import PlzVerif.Lemmas.AspFreeze
+import PlzVerif.Lemmas.AspReadOnly
 import PlzVerif.Model.AspGenerated
 /-!
 C17  Packages cannot observe or mutate each other's values.
@@ -135,17 +136,22 @@ theorem C17_sample_setdefault_refused :
   decide +kernel
 
 /-- **Partial form (top level)**: through a frozen wrapper nothing can be written — index assignment fails for a
-    frozen list and a frozen dict, and `sorted` / `reversed` refuse a frozen list — in every state. -/
+    frozen list and a frozen dict, in every state; `sorted` / `reversed` accept a frozen list and change the heap
+    by one new array only (the result): the frozen list and every other existing list are untouched. -/
 theorem C17_toplevel_partial (arr off len cap d : Nat) (idx v : Val) (st : St) :
     (indexAssign (.list true arr off len cap) idx v).run st = .error "list is immutable" ∧
     (indexAssign (.dict true d) idx v).run st = .error "dict is immutable" ∧
-    (∃ e, (asListFor F "sorted" "Argument seq" (.list true arr off len cap)).run st = .error e) ∧
-    (∃ e, (asListFor F "reversed" "irreversible type" (.list true arr off len cap)).run st = .error e) := by
-  have hs : F.frozenOK "sorted" = false := by decide
-  have hr : F.frozenOK "reversed" = false := by decide
-  refine ⟨rfl, rfl, ⟨"Argument seq must be a list, not list", ?_⟩, ⟨"irreversible type must be a list, not list", ?_⟩⟩ <;>
-    simp [asListFor, hs, hr, fail, StateT.run, throw, throwThe, MonadExceptOf.throw, StateT.lift, bind, Except.bind] <;>
-    decide
+    (∀ r st', (callBuiltin F "sorted" [(none, .list true arr off len cap)]).run st = .ok (r, st') →
+      ∃ ys, st' = { st with arrays := st.arrays ++ [ys] }) ∧
+    (∀ r st', (callBuiltin F "reversed" [(none, .list true arr off len cap)]).run st = .ok (r, st') →
+      ∃ ys, st' = { st with arrays := st.arrays ++ [ys] }) := by
+  refine ⟨rfl, rfl, ?_, ?_⟩
+  · intro r st' h
+    obtain ⟨ys, hs, _⟩ := sorted_copies F (by decide) true (Or.inr (by decide)) arr off len cap st st' r h
+    exact ⟨ys, hs⟩
+  · intro r st' h
+    obtain ⟨xs, _, hs, _⟩ := reversed_copies F (by decide) true (Or.inr (by decide)) arr off len cap st st' r h
+    exact ⟨_, hs⟩
 
 /-- **The fix is sufficient for the freezing step**: for any facts record whose `Freeze` wraps the frozen copy,
     what `freeze` returns is frozen at every level, has no spare capacity, and the heap it started from is only
